@@ -163,7 +163,7 @@ class Gen:
     def float_expr(self, depth):
         r = self.rng
         if depth <= 0 or r.chance(1, 3):
-            return r.choice(["0.0", "0.5", "3.9", "-1.5", "8.0", "1e308", "255.0"])
+            return r.choice(["0.0", "0.5", "3.9", "-1.5", "8.0", "100000000000000000000.0", "255.0"])
         return self.static_call("float", depth) or "0.25"
 
     def cmp_int(self, depth):
@@ -193,7 +193,7 @@ class Gen:
             elif t["t"] in ("array", "dict"):
                 colls.append((text, t))
         find({"t": "object", "fields": self.info["modules"][m]}, m, 0)
-        quant = r.choice(["any", "all", "none", "1", "2", "50%"])
+        quant = r.choice(["any", "all", "none", "1", "2", "3"])
         if colls and r.chance(3, 4):
             self.used.add(m)
             text, t = r.choice(colls)
@@ -211,9 +211,11 @@ class Gen:
             self.vars.pop()
             return "for %s %s in %s : (%s)" % (quant, var, text, body)
         var = "i%d" % len(self.vars)
-        lo, hi = self.int_expr(1), self.int_expr(1)
-        if r.chance(2, 3):
-            lo, hi = lit_int(r.choice([0, 1, -2])), self.dyn("integer") or lit_int(r.below(20))
+        # ranges are kept short: an attacker-sized range (`0..pe.number_of_symbols`) legitimately iterates for hours,
+        # which is not what this property is about
+        lo = r.choice([self.int_expr(1), lit_int(r.choice([0, 1, -2]))])
+        hi = "%s + math.min(math.abs(%s), %d)" % (lo, self.dyn("integer") or self.int_expr(1), r.choice([3, 40, 300]))
+        self.used.add("math")
         self.vars.append((var, {"t": "integer"}))
         cnt = self.dyn(None)
         body = self.bool_expr(depth - 1)
@@ -395,11 +397,167 @@ class C09(Prop):
                 cases.append(k)
         return cases
 
+    # ---------------------------------------------------------------- kernel cases (entry point / RVA arithmetic)
     def gen_kernel(self, rng):
+        pes = [a for a in self.assets if a[2] == "pe" and mg.pe_layout(a[1])[2]]
+        elfs = [a for a in self.assets if a[2] == "elf" and len(a[1]) >= 0x34]
+        if rng.chance(3, 5) or not elfs:
+            return self.gen_kernel_pe(rng, rng.choice(pes))
+        return self.gen_kernel_elf(rng, rng.choice(elfs))
+
+    def gen_kernel_pe(self, rng, asset):
+        path, b, _ = asset
+        F, _, S, _ = mg.pe_layout(b)
+        nt = mg.u32(b, 0x3c)
+        opt = nt + 24
+        vas = [s[0] for s in S]
+        near = [0, 1, 0xFFFFFFFF, 0x7FFFFFFF, 0x80000000, 0x200, 0x1FF, 0x201, len(b), len(b) - 1]
+        for va, vs, raw, rs in S:
+            near += [va, va - 1, va + 1, va + rs, va + rs - 1, va + vs, va + vs - 1, raw, raw + rs, rs, vs]
+        targets = [(o, s, n) for o, s, n in F if n.startswith("sec") and n.split(".")[1] in ("va", "vsize", "raw", "rawsize")]
+        targets += [(opt + 16, 4, "entry")] * 4 + [(opt + 36, 4, "file_alignment"), (nt + 4, 2, "machine"),
+                                                   (nt + 22, 2, "characteristics")]
+        edits, what = [], []
+        for _ in range(rng.choice([0, 1, 1, 2, 3, 5])):
+            o, sz, n = rng.choice(targets)
+            if n == "machine":
+                v = rng.choice([0x14c, 0x8664, 0x1c0, 0, 0xFFFF])
+            elif n == "characteristics":
+                v = mg.u16(b, o) ^ rng.choice([0x2000, 0x2002, 0])
+            elif n == "file_alignment":
+                v = rng.choice([0, 1, 0x1FF, 0x200, 0x201, 0x1000, 0xFFFFFFFF])
+            else:
+                v = rng.choice(near) & 0xFFFFFFFF
+            edits.append({"op": "set", "off": o, "hex": mg.enc(v, sz, False)})
+            what.append(n)
+        mb = mg.apply_edits(b, edits)
+        S2 = mg.pe_layout(mb)[2]
+        args = [0, -1, 1, 0xFFFFFFFF, 1 << 32, I64_MIN, I64_MAX, mg.u32(mb, opt + 16)]
+        for va, vs, raw, rs in S2:
+            args += [va, va - 1, va + rs - 1, va + rs, va + max(vs, rs) - 1, va + max(vs, rs), va + 0x1FF]
+        picked = [rng.choice(args) for _ in range(8)] + [rng.below(1 << 20)]
+        rules = [{"tag": "k_ispe", "imports": ["pe", "console"], "cond": 'console.log("ispe=", pe.is_pe)'},
+                 {"tag": "k_ep", "imports": ["console"], "cond": 'console.log("ep=", entrypoint)'}]
+        for i, a in enumerate(picked):
+            rules.append({"tag": "k_rva%d" % i, "imports": ["pe", "console"],
+                          "cond": 'console.log("rva%d=", pe.rva_to_offset(%s))' % (i, lit_int(a))})
+        return {"kind": "kernel", "format": "pe", "asset": path, "fkind": "pe", "mutation": "kernel", "what": what,
+                "edits": edits, "layout": None, "params": {"process_memory": rng.chance(1, 3)}, "rules": rules,
+                "rva_args": picked}
+
+    ELF_PH = {False: {"size": 32, "offset": (4, 4), "vaddr": (8, 4), "memsz": (20, 4)},
+              True: {"size": 56, "offset": (8, 8), "vaddr": (16, 8), "memsz": (40, 8)}}
+    ELF_SH = {False: {"size": 40, "type": (4, 4), "addr": (12, 4), "offset": (16, 4), "ssize": (20, 4)},
+              True: {"size": 64, "type": (4, 4), "addr": (16, 8), "offset": (24, 8), "ssize": (32, 8)}}
+
+    @staticmethod
+    def elf_parse(b):
+        """(is64, big_endian, e_type, e_entry, segments [(vaddr, memsz, offset)], sections [(type, addr, size, offset)],
+        field offsets) — or None when the tables are not where a plain reader expects them"""
+        if len(b) < 0x34 or b[:4] != b"\x7fELF" or b[4] not in (1, 2) or b[5] not in (1, 2):
+            return None
+        is64, be = b[4] == 2, b[5] == 2
+        if is64 and len(b) < 0x40:
+            return None
+        rd = lambda o, s: int.from_bytes(b[o:o + s], "big" if be else "little")
+        e_type = rd(16, 2)
+        if is64:
+            e_entry, phoff, shoff = rd(24, 8), rd(32, 8), rd(40, 8)
+            phentsize, phnum, shentsize, shnum = rd(54, 2), rd(56, 2), rd(58, 2), rd(60, 2)
+        else:
+            e_entry, phoff, shoff = rd(24, 4), rd(28, 4), rd(32, 4)
+            phentsize, phnum, shentsize, shnum = rd(42, 2), rd(44, 2), rd(46, 2), rd(48, 2)
+        PH, SH = C09.ELF_PH[is64], C09.ELF_SH[is64]
+        fields = [(16, 2, "e_type"), (24, 8 if is64 else 4, "e_entry")]
+        segs, secs = [], []
+        seg_ok = sec_ok = True
+        if phoff == 0 or phnum == 0:
+            seg_ok = phoff == 0 or (phnum == 0 and shoff == 0)
+        elif phentsize != PH["size"] or phnum == 0xFFFF or phoff + phnum * PH["size"] > len(b):
+            seg_ok = False
+        else:
+            for i in range(phnum):
+                o = phoff + i * PH["size"]
+                segs.append(tuple(rd(o + PH[k][0], PH[k][1]) for k in ("vaddr", "memsz", "offset")))
+                fields += [(o + PH[k][0], PH[k][1], "ph%d.%s" % (i, k)) for k in ("vaddr", "memsz", "offset")]
+        if shoff == 0:
+            pass
+        elif shnum == 0 or shentsize != SH["size"] or shoff + shnum * SH["size"] > len(b):
+            sec_ok = False
+        else:
+            for i in range(shnum):
+                o = shoff + i * SH["size"]
+                secs.append(tuple(rd(o + SH[k][0], SH[k][1]) for k in ("type", "addr", "ssize", "offset")))
+                fields += [(o + SH[k][0], SH[k][1], "sh%d.%s" % (i, k)) for k in ("type", "addr", "ssize", "offset")]
+        return {"is64": is64, "be": be, "e_type": e_type, "e_entry": e_entry, "segs": segs, "secs": secs,
+                "seg_ok": seg_ok, "sec_ok": sec_ok, "fields": fields}
+
+    def gen_kernel_elf(self, rng, asset):
+        path, b, _ = asset
+        p = self.elf_parse(b)
+        edits, what = [], []
+        if p:
+            near = [0, 1, 0xFFFFFFFF, 0xFFFFFFFFFFFFFFFF, 0x7FFFFFFFFFFFFFFF, 0x8000000000000000, p["e_entry"],
+                    p["e_entry"] + 1, p["e_entry"] - 1]
+            for va, ms, off in p["segs"]:
+                near += [va, va + ms, va + ms - 1, va - 1, off, ms]
+            for ty, ad, sz, off in p["secs"]:
+                near += [ad, ad + sz, ad + sz - 1, off, sz]
+            for _ in range(rng.choice([0, 1, 1, 2, 3])):
+                o, sz, n = rng.choice(p["fields"] + [p["fields"][0], p["fields"][1]] * 3)
+                if n == "e_type":
+                    v = rng.choice([2, 3, 1, 0, 4])
+                elif n.endswith(".type"):
+                    v = rng.choice([0, 1, 8, 3, 2])
+                else:
+                    v = rng.choice(near)
+                edits.append({"op": "set", "off": o, "hex": mg.enc(v, sz, p["be"])})
+                what.append(n)
+        rules = [{"tag": "k_ep", "imports": ["console"], "cond": 'console.log("ep=", entrypoint)'},
+                 {"tag": "k_mep", "imports": ["elf", "console"], "cond": 'console.log("mep=", elf.entry_point)'},
+                 {"tag": "k_type", "imports": ["elf", "console"], "cond": 'console.log("type=", elf.type)'}]
+        return {"kind": "kernel", "format": "elf", "asset": path, "fkind": "elf", "mutation": "kernel", "what": what,
+                "edits": edits, "layout": None, "params": {"process_memory": rng.chance(1, 3)}, "rules": rules}
+
+    @staticmethod
+    def log_int(out, tag):
+        for l in out["logs"]:
+            if l.startswith(tag + "="):
+                return int(l[len(tag) + 1:])
         return None
 
+    def kernel_term(self, case, out):
+        b = open(case["asset"], "rb").read()
+        mb = mg.apply_edits(b, case["edits"])
+        pm = bool(case["params"].get("process_memory"))
+        if case["format"] == "pe":
+            if self.log_int(out, "ispe") != 1:
+                return (True, True, 0)         # not accepted as a PE by the object crate: nothing to compare
+            nt = mg.u32(mb, 0x3c)
+            opt = nt + 24
+            nsec, szopt = mg.u16(mb, nt + 6), mg.u16(mb, nt + 20)
+            secs = []
+            for i in range(nsec):
+                so = opt + szopt + 40 * i
+                if so + 40 > len(mb):
+                    return (True, True, 0)
+                secs.append("{| s_va := %d; s_vsize := %d; s_raw := %d; s_rawsize := %d |}" % (
+                    mg.u32(mb, so + 12), mg.u32(mb, so + 8), mg.u32(mb, so + 20), mg.u32(mb, so + 16)))
+            h = ("{| h_machine := %d; h_characteristics := %d; h_entry := %d; h_file_alignment := %d; h_sections := %s |}"
+                 % (mg.u16(mb, nt + 4), mg.u16(mb, nt + 22), mg.u32(mb, opt + 16), mg.u32(mb, opt + 36), glist(secs)))
+            rvas = glist(gpair(gZ(a), gopt(self.log_int(out, "rva%d" % i), gN)) for i, a in enumerate(case["rva_args"]))
+            return "C09_pe_case %d %s %s %s %s" % (len(mb), h, gbool(pm), gopt(self.log_int(out, "ep"), gN), rvas)
+        p = self.elf_parse(mb)
+        if p is None or not p["seg_ok"] or not p["sec_ok"] or self.log_int(out, "type") is None:
+            return (True, True, 0)
+        segs = glist("{| p_vaddr := %d; p_memsz := %d; p_offset := %d |}" % s for s in p["segs"])
+        secs = glist("{| sh_type := %d; sh_addr := %d; sh_size := %d; sh_offset := %d |}" % s for s in p["secs"])
+        h = "{| e_type := %d; e_entry := %d; e_segments := %s; e_sections := %s |}" % (p["e_type"], p["e_entry"], segs, secs)
+        mod = "None" if pm else "(Some %s)" % gopt(self.log_int(out, "mep"), gN)
+        return "C09_elf_case %s %s %s %s" % (h, gbool(pm), gopt(self.log_int(out, "ep"), gN), mod)
+
     def budget(self, tier):
-        return 320 if tier == "quick" else 8000
+        return 1200 if tier == "quick" else 12000
 
     def corpus(self, ctx):
         self.ensure()
@@ -466,10 +624,12 @@ class C09(Prop):
             case["_failure"] = problems[:5]
             return (True, False, 0)
         if case["kind"] == "kernel":
-            return self.kernel_term(case, out)
-        return (True, True, 0)
-
-    def kernel_term(self, case, out):
+            t = self.kernel_term(case, out)
+            ctx.count("kernel:%s:%s" % (case["format"], "skipped (headers not accepted / tables not plain)" if isinstance(t, tuple)
+                                        else "compared"))
+            if not isinstance(t, tuple):
+                ctx.count("kernel:%s:entrypoint %s" % (case["format"], "defined" if self.log_int(out, "ep") is not None else "undefined"))
+            return t
         return (True, True, 0)
 
     def nontrivial(self, case, out):
